@@ -57,6 +57,11 @@ def header(d, name, ind):
         return ["{}{} {}({}a=0, b='x', /, c=\" \", *, d=4):".format(ind, kw, name, self_)]
     if sig == "odd_defaults":
         return ["{}{} {}({}a, b=\"    \", c='  -  ', d=(1, [2]), *, e=\"x    y: z\", f={{'k': ')'}}):".format(ind, kw, name, self_)]
+    if sig == "esc_backslash":
+        return ["{}{} {}({}a, b='x', sep=\"\\\\\"):".format(ind, kw, name, self_)]
+    if sig == "comment_apostrophe":
+        return ["{}{} {}(".format(ind, kw, name), "{}    {}a,  # the caller's first one".format(ind, self_), "{}    b='x',".format(ind),
+                "{}):".format(ind)]
     if sig == "multiline":
         return ["{}{} {}(".format(ind, kw, name), "{}    {}a,".format(ind, self_), "{}    b='x',".format(ind), "{}):".format(ind)]
     if sig == "multiline_comment":
@@ -367,7 +372,8 @@ def _check(run, replay, work):
             if res.get("gave_up") and not res["fails"]:
                 gave_up[(case["prog"][0]["body"], case["prog"][0]["doc"], res["gave_up"][:40])] = \
                     gave_up.get((case["prog"][0]["body"], case["prog"][0]["doc"], res["gave_up"][:40]), 0) + 1
-                if not any(d["doc"] == "blank" or (d["body"] == "doconly" and d["doc"] == "types_only") for d in case["prog"]):
+                if not any(d["doc"] == "blank" or (d["body"] == "doconly" and d["doc"] == "types_only")
+                           or d["sig"] in ("esc_backslash", "comment_apostrophe") for d in case["prog"]):       # DocTrans!MayGiveUp
                     run.model_drift("DocTrans.tla completes on {} but doctrans gives up ({}); the file is untouched".format(label, res["gave_up"]))
             if not res["fails"]:
                 run.held(key)
